@@ -15,6 +15,12 @@ type GenOpts struct {
 	MaxDt       int            // max seconds per block step
 	NativeToken bool           // include native-token (cosmos message) delegation
 	lastExtreme bool
+	// Anchor keeps operator 0 (the first genesis validator) out of harm: it is never slashed,
+	// jailed, opted out, re-keyed, and its self-stake is never undelegated, so the chain always
+	// has a validator. Properties about the validator set itself switch this off.
+	Anchor bool
+	// Tempos: per case, the maximum block step is drawn from this list (0 entries = MaxDt).
+	Tempos []int
 	// CapBits > 0 replaces extreme amounts by values below 2^CapBits (exclusion by construction of a
 	// listed known finding); Capped counts how often that happened.
 	CapBits int
@@ -376,6 +382,22 @@ func (m *Machine) Draw(t *rapid.T, g *GenOpts) Action {
 		}
 		if in <= 1 && m.C.App.OperatorKeeper.IsOptedIn(m.C.Ctx(), m.W.Operators[a.Op].Bech32(), m.W.AvsAddr) {
 			a = Action{Kind: "nextBlock", Dt: 7}
+		}
+	}
+	if g.Anchor && len(m.W.Operators) > 1 {
+		switch a.Kind {
+		case "optOut", "setKey", "optIn":
+			if a.Op == 0 {
+				a.Op = 1 + uniform(t, len(m.W.Operators)-1, "anchor-op")
+			}
+		case "slash", "jail":
+			if a.Key == 0 {
+				a.Key = 1 + uniform(t, len(m.Keys)-1, "anchor-key")
+			}
+		case "undelegate":
+			if a.Actor == len(m.W.Stakers) && a.Op == 0 {
+				a.Actor = uniform(t, len(m.W.Stakers), "anchor-actor")
+			}
 		}
 	}
 	if g.lastExtreme {
